@@ -1343,7 +1343,9 @@ impl BufferParser for Parser {
                         } else {
                             1
                         };
+                        let num = num.min(buf.terminal_state.tab_count() as i32 + 1);
                         (0..num).for_each(|_| caret.set_x_position(buf.terminal_state.next_tab_stop(caret.get_position().x)));
+                        buf.terminal_state.limit_caret_pos(buf, caret);
                         return Ok(CallbackAction::Update);
                     }
                     'Z' => {
@@ -1360,7 +1362,9 @@ impl BufferParser for Parser {
                         } else {
                             1
                         };
+                        let num = num.min(buf.terminal_state.tab_count() as i32 + 1);
                         (0..num).for_each(|_| caret.set_x_position(buf.terminal_state.prev_tab_stop(caret.get_position().x)));
+                        buf.terminal_state.limit_caret_pos(buf, caret);
                         return Ok(CallbackAction::Update);
                     }
                     _ => {
